@@ -1,4 +1,4 @@
-import Tickit.Proof.EvLoopSig
+import Tickit.Proof.EvLoopPoll
 import Tickit.Gen.EvLoop
 /-
   C18 — A delivered signal or ready descriptor always reaches its watchers.   (claimed: partial)
@@ -20,8 +20,11 @@ import Tickit.Gen.EvLoop
     `io_exact_conditions_*`              the entry's revents are translated bit for bit, the kernel's report is
                                           stored exactly, a slot handed out by the repaired evloop_io reports nothing;
     `cancelled_not_invoked`              a cancelled entry is skipped.
-  Defects of the shipped tree: the `*_counterexample` theorems (corpus/C18).  Not proved: the
-  `def … : Prop` at the end (engines.d/C18.json open_statements).
+    `signal_reaches_watchers_end_to_end` one repaired iteration, from the wait to the callback log (uses
+                                          `signal_bookkeeping_invariant`, `dispatch_reaches_watchers`).
+    `io_exact_conditions`                one repaired iteration, from the wait to the io callbacks.
+  Defects of the shipped tree: the `*_counterexample` theorems (corpus/C18).  No statement of the property
+  is left open; `OsPpoll` is assumed.
 -/
 namespace Tickit.Props.C18
 open Tickit Tickit.EvLoop
@@ -122,6 +125,85 @@ theorem signal_watchers_in_order (fuel : Nat) (st : St) (s : Int) (i : SInv st) 
 example : (sigwatchLoopT 100 (runOps .repaired [.beh ⟨0, 0, [.cancel 1, .signal 3 23 0]⟩, .act (.signal 0 23 0),
       .act (.signal 1 23 0), .act (.signal 2 23 1)]) 23 (some 4)).2 = [4, 1, 2, 5] := by decide +kernel
 
+/-- The repaired walk (a snapshot of the list, entries checked with `watch_is_linked`): every watch of the
+    snapshot that is still in the list when the walk returns normally has been visited … -/
+theorem signal_reaches_watchers_repaired (fuel : Nat) (st : St) (s : Int) (i : SInv st)
+    (hok : (sigSnapLoopT fuel st s st.signals).1.status = .ok) :
+    ∀ b ∈ st.signals, b ∈ (sigSnapLoopT fuel st s st.signals).1.signals → b ∈ (sigSnapLoopT fuel st s st.signals).2 :=
+  fun b hb hfin => sigsnap_complete fuel s st.signals st i hok b hb (i.alloc b hb) hfin
+
+/-- … and the visited watches are a sub-sequence of the list as it was when the walk began (registration
+    order, BIND_FIRST registrations first). -/
+theorem signal_watchers_in_order_repaired (fuel : Nat) (st : St) (s : Int) :
+    (sigSnapLoopT fuel st s st.signals).2.Sublist st.signals := sigsnap_sublist fuel s st.signals st
+
+/-- On the callback log: every harness watch of signal `s` that was in the list when the walk (as shipped)
+    started and is still in the list when it returns normally has its FIRE entry in the log, whatever the
+    callbacks did in between. -/
+theorem signal_reaches_watchers_logged (fuel : Nat) (st : St) (s : Int) (i : SInv st)
+    (hok : (sigwatchLoopT fuel st s st.signals.head?).1.status = .ok) :
+    ∀ b ∈ st.signals, b ∈ (sigwatchLoopT fuel st s st.signals.head?).1.signals →
+      (st.getW b).signum = s → (st.getW b).slot ≥ 0 →
+      Ev.cb (st.getW b).slot EV_FIRE .none ∈ (sigwatchLoopT fuel st s st.signals.head?).1.log := by
+  intro b hb hfin hsig hslot
+  apply sigwalk_logged fuel st s st.signals.head? i hok b hfin _ hsig hslot
+  cases hl : st.signals with
+  | nil => rw [hl] at hb; cases hb
+  | cons h t =>
+    refine ⟨h, rfl, List.mem_cons_self, ?_⟩
+    rw [hl] at hb
+    simp only [List.mem_cons] at hb
+    rw [aft_cons_self]
+    exact hb
+
+/-- The same for the repaired walk. -/
+theorem signal_reaches_watchers_logged_repaired (fuel : Nat) (st : St) (s : Int) (i : SInv st)
+    (hok : (sigSnapLoopT fuel st s st.signals).1.status = .ok) :
+    ∀ b ∈ st.signals, b ∈ (sigSnapLoopT fuel st s st.signals).1.signals →
+      (st.getW b).signum = s → (st.getW b).slot ≥ 0 →
+      Ev.cb (st.getW b).slot EV_FIRE .none ∈ (sigSnapLoopT fuel st s st.signals).1.log :=
+  fun b hb hfin hsig hslot => sigsnap_logged fuel s st.signals st i hok b hb (i.alloc b hb) hfin hsig hslot
+
+/-! ### end to end: from the wait to the callback log -/
+
+/-- In every reachable state whose status is ok, under any variant of the source, the loop's `watched_signals`
+    and `signums[]` agree with the list of signal watches (every listed watch's number is watched, sits in
+    its own slot, and slots are not shared). -/
+theorem signal_bookkeeping_invariant (cfg : Config) (ops : List Op) (hok : (runOps cfg ops).status = .ok) :
+    KInv (runOps cfg ops) := kinv_runOps cfg ops hok
+
+/-- `dispatch_signals`: for every recorded signal, every harness watch of it that is in the list when the
+    dispatch starts and still there when it ends has its FIRE entry in the log — whatever the callbacks of
+    this and of the other signals did (either variant of the walk). -/
+theorem dispatch_reaches_watchers (fuel : Nat) (st : St) (k : KInv st) (hok : (dispatchSignals fuel st).status = .ok) :
+    ∀ s ∈ signalRange, s ∈ st.pendingSig → ∀ b ∈ st.signals, b ∈ (dispatchSignals fuel st).signals →
+      (st.getW b).signum = s → (st.getW b).slot ≥ 0 →
+      Ev.cb (st.getW b).slot EV_FIRE .none ∈ (dispatchSignals fuel st).log :=
+  dispatchSignals_logged fuel st k hok
+
+/-- One iteration under the repaired `evloop_run`, from the wait to the log: every signal that was pending in
+    the kernel when the wait looked at signals — raised before the iteration, from a callback of an earlier
+    one, or inside the wait — reaches every harness watch of it that is listed after the timers and deferred
+    callbacks have run and is not cancelled before the iteration ends: its FIRE entry is in the log of this
+    iteration, whatever timers, deferred callbacks and the other signal callbacks did (errno included). -/
+theorem signal_reaches_watchers_end_to_end (fuel : Nat) (st : St) (nohang : Bool) (k : KInv st) (hs : st.cfg.errnoSaved = true)
+    (hok0 : st.isOk = true) (hok1 : (nextTimerMsec st).1.isOk = true)
+    (hok2 : (ppoll (nextTimerMsec st).1 (tickTimeout nohang (nextTimerMsec st).2)).1.isOk = true)
+    (hint : (ppoll (nextTimerMsec st).1 (tickTimeout nohang (nextTimerMsec st).2)).2 = none)
+    (hok3 : (invokeTimers fuel (ppoll (nextTimerMsec st).1 (tickTimeout nohang (nextTimerMsec st).2)).1).isOk = true)
+    (hok : (tick fuel st nohang).status = .ok) :
+    ∀ s ∈ signalRange, s ∈ (pollRaise (pollScan (nextTimerMsec st).1)).kpending →
+      ∀ b ∈ (invokeTimers fuel (ppoll (nextTimerMsec st).1 (tickTimeout nohang (nextTimerMsec st).2)).1).signals,
+        b ∈ (tick fuel st nohang).signals →
+        ((invokeTimers fuel (ppoll (nextTimerMsec st).1 (tickTimeout nohang (nextTimerMsec st).2)).1).getW b).signum = s →
+        ((invokeTimers fuel (ppoll (nextTimerMsec st).1 (tickTimeout nohang (nextTimerMsec st).2)).1).getW b).slot ≥ 0 →
+        Ev.cb ((invokeTimers fuel (ppoll (nextTimerMsec st).1 (tickTimeout nohang (nextTimerMsec st).2)).1).getW b).slot EV_FIRE .none
+          ∈ (tick fuel st nohang).log :=
+  tick_signal_reaches_logged fuel st nohang k hs hok0 hok1 hok2 hint hok3 hok
+
+example : Ev.cb 1 EV_FIRE .none ∈ (runOps .repaired [.beh ⟨0, 0, [.errno 11, .stop]⟩, .act (.signal 1 23 0), .act (.signal 2 10 0),
+    .act (.timer 0 0 0), .act (.raise 23), .act (.raise 10), .tick]).log := by decide +kernel
+
 /-! ### descriptors -/
 
 /-- The translation `revents → cond` is exact, bit for bit. -/
@@ -167,6 +249,20 @@ theorem cancelled_not_invoked (fuel : Nat) (st : St) (idx : Nat) (hok : st.isOk 
 
 example : ((evloopCancelIo (runOps .shipped [.act (.io 0 100 1 0)]) 0).pfd.getD 0 default).fd = -1 := by decide +kernel
 
+/-- One iteration under the repaired `evloop_io`, from the wait to the callbacks: every io watch the iteration
+    invokes is the watch of an entry the wait scanned, is invoked at most once (entries are taken in index
+    order), and with exactly `condOfRevents (pollRevents …)` of *that* entry — whatever timers, deferred
+    callbacks and the io callbacks before it registered or cancelled. -/
+theorem io_exact_conditions (fuel : Nat) (st : St) (t : Option Int) (hc : st.cfg.reventsCleared = true) :
+    (∀ e ∈ (ioLoopT fuel (invokeTimers fuel (ppoll st t).1) 0).2,
+        e.1 < st.pfd.length ∧ (st.pfd.getD e.1 default).fd ≠ -1 ∧ e.2.1 = (st.pfd.getD e.1 default).watch ∧
+        e.2.2 = condOfRevents (pollRevents st (st.pfd.getD e.1 default))) ∧
+    (ioLoopT fuel (invokeTimers fuel (ppoll st t).1) 0).2.Pairwise (fun x y => x.1 < y.1) :=
+  io_exact_end_to_end fuel st t hc
+
+example : (ioLoopT 100 (invokeTimers 100 (ppoll (runOps .repaired [.beh ⟨0, 0, [.cancel 1, .io 2 102 1 0]⟩, .act (.io 0 100 1 0),
+    .act (.io 1 101 1 0), .ready 100 1, .ready 101 1, .ready 102 1]) (some 0)).1) 0).2 = [(0, some 2, 1)] := by decide +kernel
+
 /-! ### defects of the tree as shipped (corpus/C18/*.ops), and the same histories repaired -/
 
 def cbLog (st : St) : List Ev := st.log.reverse.filter fun e => match e with | .cb .. => true | _ => false
@@ -208,33 +304,10 @@ theorem io_self_cancel_counterexample : (runOps .shipped probeIoSelfCancel).stat
 theorem io_self_cancel_repaired : (runOps .repaired probeIoSelfCancel).status = .ok ∧
     cbLog (runOps .repaired probeIoSelfCancel) = [.cb 0 1 (.io 100 1)] := by decide +kernel
 
-/-- A signal watch that cancels itself: `tickit_evloop_invoke_sigwatches` reads `this->next` afterwards
-    (both variants of the source: no repair is proposed). -/
-theorem signal_self_cancel_counterexample (cfg : Config) (h : cfg = .shipped ∨ cfg = .repaired) :
-    (runOps cfg probeSigSelfCancel).status = .ub .sigLoopThis := by
-  cases h with
-  | inl h => subst h; decide +kernel
-  | inr h => subst h; decide +kernel
-
-/-! ### statements of the property that are not proved (engines.d/C18.json: open_statements) -/
-
-/-- The same, read off the callback log of a whole iteration under the repaired source: every live
-    watcher of a signal the handler recorded during the wait appears in the log of that iteration.
-    (Proved: the wait records every pending signal; dispatch follows an interrupted wait whatever the
-    callbacks did; the walk skips nobody and keeps list order.  Not proved: the bookkeeping that turns
-    "visited" into "has an entry in `log`", and the composition over the `for(signum …)` loop.) -/
-def signal_reaches_watchers_full : Prop :=
-  ∀ (fuel : Nat) (st : St) (nohang : Bool), st.cfg = .repaired → (tick fuel st nohang).status = .ok →
-    ∀ s ∈ st.kpending, ∀ a ∈ (tick fuel st nohang).signals, a ∈ st.signals →
-      ((tick fuel st nohang).getW a).signum = s → ((tick fuel st nohang).getW a).slot ≥ 0 →
-      (∀ fd ∈ st.ready, fd.2 = 0) →
-      Ev.cb ((tick fuel st nohang).getW a).slot EV_FIRE .none ∈ (tick fuel st nohang).log
-
-/-- End to end for descriptors under the repaired source: in one iteration every invocation of an io
-    watch carries `condOfRevents (pollRevents …)` of *its own* entry as scanned by this iteration's wait. -/
-def io_exact_conditions_full : Prop :=
-  ∀ (fuel : Nat) (st : St) (nohang : Bool), st.cfg = .repaired → (tick fuel st nohang).status = .ok →
-    ∀ k fd c, Ev.cb k EV_FIRE (.io fd c) ∈ (tick fuel st nohang).log →
-      ∃ s ∈ st.pfd, s.fd = fd ∧ c = condOfRevents (pollRevents st s)
+/-- A signal watch that cancels itself: `tickit_evloop_invoke_sigwatches` reads `this->next` afterwards. -/
+theorem signal_self_cancel_counterexample : (runOps .shipped probeSigSelfCancel).status = .ub .sigLoopThis := by
+  decide +kernel
+theorem signal_self_cancel_repaired : (runOps .repaired probeSigSelfCancel).status = .ok ∧
+    cbLog (runOps .repaired probeSigSelfCancel) = [.cb 0 1 .none] := by decide +kernel
 
 end Tickit.Props.C18
